@@ -75,6 +75,20 @@ CHECKS['C20'] = {
     'technique': 'deterministic simulation: plan-driven Node Readable (chunking x timing class x consumer pacing), differential vs bulk read, turn-counted liveness watchdog',
 }
 
+CHECKS['C06'] = {
+    'level': 'exploration',
+    'text': ('Seeded histories of 1-6 operations (SELECT / UPDATE / JOIN / EXCEPT / UNNEST / aggregates, succeeding or failing) against one world that holds the same data as Python '
+             'lists (shared, ragged, None rows), CSV files, a sqlite file, two DataFrames and rbql-js arrays, each operation through a seeded front-end with faults placed inside it '
+             '(runtime error at record k, parse / syntax error, unknown join table, breaking output sink, refusing writer, undecodable join file, hostile sqlite identifiers in the '
+             'input-table and JOIN positions). After every operation the storage seams are inspected: deep equality and row identities of the lists, no output row aliasing an input '
+             'row (then outputs are mutated and sources compared again), sha256 of every CSV source, sqlite file hash + total_changes + every traced statement matching '
+             'SELECT * FROM <ident>;, DataFrame equality/dtypes/index, and the Node driver\'s report for the JS arrays. Sampling.'),
+    'design_ref': 'DESIGN.md 3.2',
+    'note': ('Trusted: sha256 / DataFrame.equals / sqlite total_changes and trace callback as observers. output_path == input_path is not generated. A writable open mode on a source '
+             'is reported as a probe only: the content hash is the oracle.'),
+    'technique': 'deterministic simulation with fault injection: seeded operation histories with in-operation faults over all source kinds, conservation invariant checked at the storage seams after every step',
+}
+
 NOT_APPLICABLE = {
     'C01': 'pure function of (query text, table): no stream schedule, interleaving, history or fault in the statement, nothing for a simulator to own',
     'C03': 'aggregate values are a pure function of the group records in input order; accumulator state never meets a seam',
@@ -92,7 +106,7 @@ NOT_APPLICABLE = {
     'C19': 'JS engine vs reference semantics is a pure differential statement; its last clause (caller arrays unmodified) is observed by the C06 JS workload',
 }
 
-PENDING = {pid: 'check not built yet in this commit (simulation target, planned in DESIGN.md section 3); not claimed until its check exists' for pid in ('C06',)}
+PENDING = {} if True else {pid: 'check not built yet in this commit (simulation target, planned in DESIGN.md section 3); not claimed until its check exists' for pid in ('C06',)}
 
 
 def main():
